@@ -73,3 +73,39 @@ Proof.
   - intros g Hg. apply seg_ok_no_slash. rewrite forallb_forall in Hs. now apply Hs.
 Qed.
 
+
+(* ---------- a relative path that never climbs above where it starts ---------- *)
+Lemma nstep_false_ups st g : fst st <= fst (nstep false st g).
+Proof.
+  destruct st as [u rn]. unfold nstep. destruct (is_empty g || is_dot g); [cbn; lia|].
+  destruct (is_dotdot g); [destruct rn; cbn; lia|cbn; lia].
+Qed.
+
+Lemma nrun_false_ups segs : forall st, fst st <= fst (nrun false st segs).
+Proof.
+  induction segs as [|g segs IH]; intros st; [cbn; lia|].
+  cbn [nrun fold_left]. change (fold_left (nstep false) segs ?s) with (nrun false s segs).
+  pose proof (nstep_false_ups st g). pose proof (IH (nstep false st g)). lia.
+Qed.
+
+(* ... behaves the same on top of any base, in rooted mode too *)
+Lemma nstep_base st base g :
+  fst (nstep false (0, st) g) = 0 ->
+  nstep true (0, st ++ base) g = (0, snd (nstep false (0, st) g) ++ base).
+Proof.
+  unfold nstep. destruct (is_empty g || is_dot g); [reflexivity|].
+  destruct (is_dotdot g); [|reflexivity].
+  destruct st as [|s0 st']; [discriminate|reflexivity].
+Qed.
+
+Lemma nrun_base segs : forall st base,
+  fst (nrun false (0, st) segs) = 0 ->
+  nrun true (0, st ++ base) segs = (0, snd (nrun false (0, st) segs) ++ base).
+Proof.
+  induction segs as [|g segs IH]; intros st base H; [reflexivity|].
+  cbn [nrun fold_left] in *. change (fold_left (nstep ?r) segs ?s) with (nrun r s segs) in *.
+  pose proof (nrun_false_ups segs (nstep false (0, st) g)) as Hm.
+  assert (H0 : fst (nstep false (0, st) g) = 0) by lia.
+  rewrite (nstep_base st base g H0).
+  destruct (nstep false (0, st) g) as [u st1]. cbn [fst snd] in *. subst u. now apply IH.
+Qed.
